@@ -1000,7 +1000,8 @@ theorem buildSite_inv_some (l : List (String × Pop)) (project : Option (List Na
       | none =>
         simp only at h
         injection h with h; subst h
-        exact ⟨hm, rfl, hmem, by intro pt hpt; cases hpt, fun _ => rfl⟩
+        refine ⟨hm, rfl, hmem, ?_, fun _ => rfl⟩
+        intro pt hpt; cases hpt
       | some toShape =>
         simp only at h
         by_cases hlen : (mapShape map).length ≠ toShape.length
@@ -1022,7 +1023,7 @@ theorem buildSite_inv_some (l : List (String × Pop)) (project : Option (List Na
               subst hpt'
               have := ((countOfShape_some_iff toShape pt).mp hcs).2
               rw [this, List.length_map, ← mapShape_length]
-              simpa using hlen
+              simpa using (not_not.mp hlen).symm
 
 /-- What a successful `buildSite` returns. -/
 theorem buildSite_inv (samples : Option (List (String × Pop))) (project : Option (List Nat)) (cols : List String)
